@@ -175,8 +175,8 @@ package keeper
 //@ requires [amount_non_negative] delTokens0 >= 0
 //@ requires [validators_have_delegator_shares] forall v bytes :: has(staking.validators, v) ==> staking.validators[v].DelegatorShares > 0
 //@ modifies staking.*, bank.bal
-//@ ensures [fully_covered_by_the_delegation] err == nil && ret(GetDelegation, 1) == nil && held(valAddr, ret(GetDelegation, 0)) >= delTokens0 ==> rest == 0
-//@ ensures [rest_is_what_the_delegation_could_not_cover] err == nil && ret(GetDelegation, 1) == nil && held(valAddr, ret(GetDelegation, 0)) < delTokens0 ==> rest == delTokens0 - old(held(valAddr, ret(GetDelegation, 0)))
+//@ ensures [fully_covered_by_the_delegation] err == nil && ret(GetDelegation, 1) == nil && old(held(valAddr, ret(GetDelegation, 0))) >= delTokens0 ==> rest == 0
+//@ ensures [rest_is_what_the_delegation_could_not_cover] err == nil && ret(GetDelegation, 1) == nil && old(held(valAddr, ret(GetDelegation, 0))) < delTokens0 ==> rest == delTokens0 - old(held(valAddr, ret(GetDelegation, 0)))
 //@ ensures [escrow_receives_exactly_what_was_unbonded] err == nil && called(Unbond) ==> bank.bal[module("dispute")] == old(bank.bal[module("dispute")]) + ret(Unbond, 0)
 //@ ensures [nothing_moves_without_unbonding] err == nil && !called(Unbond) ==> bank.bal == old(bank.bal)
 //@ ensures [only_pools_and_escrow_touched] forall a addr :: a != module("dispute") && a != module("bonded_tokens_pool") && a != module("not_bonded_tokens_pool") ==> bank.bal[a] == old(bank.bal[a])
